@@ -499,6 +499,12 @@ func isInvariant(v ssa.Value, blocks map[*ssa.BasicBlock]bool) bool {
 	if _, ok := v.(*ssa.Const); ok {
 		return true
 	}
+	// len(x) re-evaluated in the header of a loop that does not reassign x
+	if c, ok := v.(*ssa.Call); ok {
+		if b, ok := c.Call.Value.(*ssa.Builtin); ok && (b.Name() == "len" || b.Name() == "cap") {
+			return isInvariant(canon(c.Call.Args[0]), blocks)
+		}
+	}
 	if in, ok := v.(ssa.Instruction); ok {
 		return !blocks[in.Block()]
 	}
